@@ -404,7 +404,7 @@ func runDT(cfg *config, o *out) error {
 				p.name(), g.mode, identical, aloneIdentical, b2i(untouched), joinOrDash(offending, ","))
 		}
 		if w0.exit != 0 {
-			o.add("N DT %s mode=%s exit=%d output=%q", p.name(), g.mode, w0.exit, w0.output)
+			o.add("N DT %s mode=%s exit=%d output=%q", p.name(), g.mode, w0.exit, strings.ReplaceAll(w0.output, cfg.scratch, "$SCRATCH"))
 		}
 	}
 
